@@ -295,24 +295,27 @@ def summaries(t, m, report):
         if md is None or not len(md):
             continue
         keys0 = list(md[0].keys())
+        # the same categories on every id, each either a list on every id (lengths may differ: shorter ones leave
+        # their remaining columns empty) or a scalar on every id
         homo = all(list(e.keys()) == keys0 for e in md) and all(
-            len({(type(e[k]) in (list, tuple), len(e[k]) if isinstance(e[k], (list, tuple)) else -1)
-                 for e in md}) == 1 for k in keys0)
+            len({type(e.get(k)) in (list, tuple) for e in md}) == 1 for k in keys0)
         if not homo:
             continue
         cols, rows = [], []
+        width = {k: max(len(e.get(k)) for e in md) for k in keys0 if isinstance(md[0].get(k), (list, tuple))}
         for k in keys0:
-            v = md[0][k]
-            cols += ['%s_%d' % (k, i) for i in range(len(v))] if isinstance(v, (list, tuple)) else [k]
+            cols += ['%s_%d' % (k, i) for i in range(width[k])] if k in width else [k]
         for e in md:
             r = []
             for k in keys0:
-                r += list(e[k]) if isinstance(e[k], (list, tuple)) else [e[k]]
+                r += (list(e.get(k)) + [None] * (width[k] - len(e.get(k)))) if k in width else [e.get(k)]
             rows.append(r)
         ok, df = guard('metadata_to_dataframe', lambda: t.metadata_to_dataframe(ax))
         if ok:
+            def _cell(x):
+                return None if x is None or (isinstance(x, float) and x != x) else x
             if [str(x) for x in df.index] != ids or list(df.columns) != cols or \
-                    [list(x) for x in df.values.tolist()] != rows:
+                    [[_cell(y) for y in x] for x in df.values.tolist()] != rows:
                 bad('metadata_to_dataframe:' + ax, 'metadata frame %r / %r, expected %r / %r'
                     % (list(df.columns), df.values.tolist(), cols, rows))
             else:
@@ -340,34 +343,45 @@ def summaries(t, m, report):
         from biom.cli.metadata_exporter import _export_metadata
         if _TMP is None or not os.path.isdir(_TMP):
             _TMP = tempfile.mkdtemp(prefix='verif-c19-')
-        src = os.path.join(_TMP, 'in_%d.biom' % os.getpid())
+        src_json = os.path.join(_TMP, 'in_%d.biom' % os.getpid())
+        src_h5 = os.path.join(_TMP, 'in_%d.h5.biom' % os.getpid())
+        srcs = []
         try:
-            with open(src, 'w', encoding='utf-8') as fh:
+            with open(src_json, 'w', encoding='utf-8') as fh:
                 fh.write(t.to_json('verif'))
+            srcs.append(src_json)
         except Exception:
-            return          # writing is C02's business
-        for obsflag, exp in ((False, sids), (True, oids)):
-            buf = io.StringIO()
-            with contextlib.redirect_stdout(buf):
-                ok, _ = guard('table-ids', lambda: table_ids_cmd.callback(input_fp=src, observations=obsflag))
-            if ok:
-                if buf.getvalue().split('\n')[:-1] != exp:
-                    bad('table-ids', 'table-ids printed %r, ids are %r' % (buf.getvalue(), exp))
-                else:
-                    _cnt('clause:table-ids')
-        for n, mm in ((1, 1), (2, 5), (5, 2)):
-            dst = os.path.join(_TMP, 'head_%d.txt' % os.getpid())
-            ok, _ = guard('head', lambda: head_cmd.callback(input_fp=src, output_fp=dst, n_obs=n, n_samp=mm))
-            if ok:
-                got = open(dst, encoding='utf-8').read()
-                exp = ['# Constructed from biom file', '#OTU ID\t' + '\t'.join(sids[:mm])]
-                for i in range(min(n, N)):
-                    exp.append(oids[i] + '\t' + '\t'.join(str(np.float64(D[i, j])) for j in range(min(mm, Mm))))
-                if got != '\n'.join(exp):
-                    bad('head-command', 'head -n %d -m %d wrote %r, expected %r' % (n, mm, got, '\n'.join(exp)))
-                else:
-                    _cnt('clause:head-command')
-        os.unlink(src)
+            pass            # writing is C02's business
+        try:
+            import h5py
+            with h5py.File(src_h5, 'w') as fh:
+                t.to_hdf5(fh, 'verif')
+            srcs.append(src_h5)
+        except Exception:
+            pass            # ... or C01's
+        for src in srcs:      # the commands read either BIOM format
+            for obsflag, exp in ((False, sids), (True, oids)):
+                buf = io.StringIO()
+                with contextlib.redirect_stdout(buf):
+                    ok, _ = guard('table-ids', lambda: table_ids_cmd.callback(input_fp=src, observations=obsflag))
+                if ok:
+                    if buf.getvalue().split('\n')[:-1] != exp:
+                        bad('table-ids', 'table-ids printed %r, ids are %r' % (buf.getvalue(), exp))
+                    else:
+                        _cnt('clause:table-ids')
+            for n, mm in ((1, 1), (2, 5), (5, 2)):
+                dst = os.path.join(_TMP, 'head_%d.txt' % os.getpid())
+                ok, _ = guard('head', lambda: head_cmd.callback(input_fp=src, output_fp=dst, n_obs=n, n_samp=mm))
+                if ok:
+                    got = open(dst, encoding='utf-8').read()
+                    exp = ['# Constructed from biom file', '#OTU ID\t' + '\t'.join(sids[:mm])]
+                    for i in range(min(n, N)):
+                        exp.append(oids[i] + '\t' + '\t'.join(str(np.float64(D[i, j])) for j in range(min(mm, Mm))))
+                    if got != '\n'.join(exp):
+                        bad('head-command', 'head -n %d -m %d wrote %r, expected %r' % (n, mm, got, '\n'.join(exp)))
+                    else:
+                        _cnt('clause:head-command')
+            os.unlink(src)
 
 
 def starts(loaded=True):
@@ -378,6 +392,11 @@ def starts(loaded=True):
     D = [[1, 0, 2.5], [0, 4, 3]]
     o, c = ['GC50%', 'rep%d: 7'], ['10%%s', '%(a)s', 'ü 3: x']
     omd = [{'k': '50%'}, {'k': '%s'}]
+    Dr = [[1, 0], [2, 3], [0, 4]]
+    romd = [{'taxonomy': ['k__A'], 'n': 'one'}, {'taxonomy': ['k__A', 'p__B', 's__C'], 'n': 'two'},
+            {'taxonomy': ['k__A', 'p__B'], 'n': 'three'}]
+    S['ragged3x2'] = (lambda: Table(np.array(Dr, float), ['r1', 'r2', 'r3'], ['x', 'y'], [dict(e) for e in romd], None),
+                      M(['r1', 'r2', 'r3'], ['x', 'y'], Dr, romd, None))
     S['oddids2x3'] = (lambda: Table(np.array(D, float), list(o), list(c), [dict(e) for e in omd], None),
                       M(o, c, D, omd, None))
     if loaded:
